@@ -120,16 +120,25 @@ def run():
                             cfg="MCParseSession.cfg" if thorough else "MCParseSessionQuick.cfg", timeout=2400)])
     stats = dict(texts=0, runs=0, pieces=0, references=0, discarded_items=0, panic_results=0,
                  texts_with_cuts_inside_more=0)
-    # (name, zv arguments); the thorough tier works in batches to bound the size of one trace
-    batches = [("gen", ["-part", "gen"]), ("files", ["-part", "files"]), ("rand", ["-part", "rand"])]
+    # (name, [zv argument lists]); one trace and one TLC run per batch.  The quick tier is a single
+    # batch; the thorough tier works in batches to bound the size of one trace.
+    base = [["-part", "gen"], ["-part", "files"], ["-part", "rand"]]
+    batches = [("base", base)]
     if thorough:
-        batches += [("gen4-%d" % k, ["-part", "gen", "-gen", "base,4,full,1,%d,4" % k]) for k in range(4)]
-        batches += [("mid5", ["-part", "gen", "-gen", "mid,5,light,6,0,1"]),
-                    ("small5", ["-part", "gen", "-gen", "small,5,light,1,0,1"]),
-                    ("small6", ["-part", "gen", "-gen", "small,6,light,6,0,1"])]
-    for part, args in batches:
+        batches += [("gen4-%d" % k, [["-part", "gen", "-gen", "base,4,full,1,%d,4" % k]]) for k in range(4)]
+        batches += [("mid5", [["-part", "gen", "-gen", "mid,5,light,6,0,1"]]),
+                    ("small5", [["-part", "gen", "-gen", "small,5,light,1,0,1"]]),
+                    ("small6", [["-part", "gen", "-gen", "small,6,light,6,0,1"]])]
+    for part, arglists in batches:
         trace = os.path.join(vlib.scratch(), "parse-%s.ndjson" % part)
-        vlib.run_zv(zv, FAMILY, args, trace)
+        with open(trace, "wb") as o:
+            for k, args in enumerate(arglists):
+                sub = "%s.in%d" % (trace, k)
+                vlib.run_zv(zv, FAMILY, args, sub)
+                with open(sub, "rb") as f:
+                    for line in f:
+                        o.write(line)
+                os.unlink(sub)
         _validate(out, part, trace, zv, stats)
         for k in range(1, 4 * vlib.NCPU + 1):
             try:
